@@ -70,6 +70,9 @@ pub fn unify(state: &mut TypeCheckerState, watchdog: &DynWatchdog) -> Result<()>
         let mut made_progress = false;
 
         for (ty_var, inferences) in forest.sets() {
+            #[cfg(sle_verif)]
+            crate::verif::emit(crate::verif::Event::LoopIter { site: "tc::unify" });
+
             // If we have been told to stop, stop and return an error.
             if counter % polling_interval == 0 && watchdog.should_stop() {
                 let location = state.value_unchecked(ty_var).instruction_pointer();
